@@ -24,7 +24,7 @@ fn trait_sig(m: &Method) -> String {
     format!("{}fn {}({}){}", if m.is_async { "async " } else { "" }, m.name, ps.join(", "), if m.ret_unit { "" } else { " -> String" })
 }
 
-fn impl_fn(m: &Method, target: usize, deps: &[usize], generic_form: bool, vis: &str) -> String {
+fn impl_fn(m: &Method, target: usize, deps: &[usize], generic_form: bool, vis: &str, not_send: bool) -> String {
     // deps 3 and 4 are two instantiations of one generic entraited trait: same path, different generic arguments
     let bname = |d: &usize| match d {
         3 => "GDep<i32>".to_string(),
@@ -52,7 +52,12 @@ fn impl_fn(m: &Method, target: usize, deps: &[usize], generic_form: bool, vis: &
         }
     }
     if m.is_async {
-        s.push_str("        rt::yield_once().await;\n");
+        // under `?Send` the selected block may hold a !Send value across an await
+        if not_send {
+            s.push_str("        let __rc = ::std::rc::Rc::new(0u8);\n        rt::yield_once().await;\n        let _ = *__rc;\n");
+        } else {
+            s.push_str("        rt::yield_once().await;\n");
+        }
     }
     // the block's fns really use their further dependencies
     let mut sum = String::from("0u32");
@@ -101,9 +106,12 @@ pub fn gen_case(t: &mut Tape) -> Case {
     let trait_attr = if t.chance(1, 5) { format!("pub {trait_attr}") } else { trait_attr };
     // options that must not influence the delegation
     let mut trait_attr = trait_attr;
-    if any_async && !use_async_trait && t.chance(1, 4) {
+    let maybe_send = any_async && !use_async_trait && t.chance(1, 3);
+    if maybe_send {
         trait_attr.push_str(", ?Send");
     }
+    // ... and then a block's futures need not be Send (static selection only: `dyn TrImpl<Self> + Sync` providers stay Send-agnostic)
+    let not_send_blocks = maybe_send && !dynamic && t.chance(2, 3);
     if t.chance(1, 4) {
         trait_attr.push_str(*t.pick(&[", unimock = false", ", mockall = false", ", mock_api = TrMock"]));
     }
@@ -135,7 +143,7 @@ pub fn gen_case(t: &mut Tape) -> Case {
             }
             max_deps = max_deps.max(deps.len());
             let vis = if t.chance(1, 3) { "pub " } else { "" };
-            src.push_str(&format!("    {}", impl_fn(m, x, &deps, t.flip(), vis)));
+            src.push_str(&format!("    {}", impl_fn(m, x, &deps, t.flip(), vis, not_send_blocks)));
         }
         src.push_str("}\n");
     }
@@ -194,6 +202,9 @@ pub fn gen_case(t: &mut Tape) -> Case {
     }
     if any_async {
         classes.push(if use_async_trait { "async_with_async_trait" } else { "async_static" });
+    }
+    if not_send_blocks {
+        classes.push("maybe_send_with_not_send_block_futures");
     }
     if n_targets >= 3 {
         classes.push("three_targets");
